@@ -1,10 +1,14 @@
 use crate::engine::Report;
 use serde_json::Value;
 
+pub mod c01;
+pub mod c04;
 pub mod c18;
 
 pub fn registry() -> Vec<(&'static str, fn(&Report), Option<fn(&Value) -> String>)> {
     vec![
+        ("C01", c01::run, Some(c01::replay)),
+        ("C04", c04::run, Some(c04::replay)),
         ("C18", c18::run, Some(c18::replay)),
     ]
 }
